@@ -105,7 +105,7 @@ def check_output(out, kw):
             for key, val in t["data"].items():
                 if key not in attributes:
                     return ("disallowed attribute %r survived" % (key,), "attribute")
-                if key in s.attr_val_is_uri:
+                if is_uri_attr(name, key):
                     sch = urlscheme.scheme(val)
                     if sch is not None and sch not in protocols:
                         return ("URI attribute %r keeps scheme %r" % (key, sch), "scheme")
@@ -134,6 +134,20 @@ def check_output(out, kw):
                                     continue
                                 return ("style keeps keyword %r in shorthand property %r" % (word, prop), "style-keyword")
     return None
+
+
+# Which attributes take a URL is a fact about HTML / SVG, not about the sanitizer: the oracle has its own table (the
+# sanitizer's attr_val_is_uri is part of the mechanism under test).  Attributes that are URL-valued on particular
+# elements only are listed with those elements.
+XLINK_NS = "http://www.w3.org/1999/xlink"
+XML_NS = "http://www.w3.org/XML/1998/namespace"
+URI_ATTRS = frozenset([(None, n) for n in ("href", "src", "cite", "action", "longdesc", "poster", "background", "datasrc", "dynsrc", "lowsrc",
+                                           "ping", "formaction", "manifest", "codebase")] + [(XLINK_NS, "href"), (XML_NS, "base")])
+URI_ATTRS_ON = {(None, "icon"): ("command", "menuitem"), (None, "data"): ("object",)}
+
+
+def is_uri_attr(element, key):
+    return key in URI_ATTRS or element in URI_ATTRS_ON.get(key, ())
 
 
 _COLOUR_OR_LENGTH = re.compile(r"(#[0-9a-fA-F]+|rgb\([0-9%,]*\)?|[0-9.]*(cm|em|ex|in|mm|pc|pt|px|%|,|\))?)\Z")
@@ -192,8 +206,7 @@ CSS = ["url(", ")", "x", "color", ":", "red", ";", "expression(", "\\", "/*", "*
 
 
 def uri_attrs():
-    s = san()
-    return sorted(s.attr_val_is_uri, key=repr)
+    return sorted(URI_ATTRS, key=repr)
 
 
 def _url_shard(args):
@@ -203,8 +216,8 @@ def _url_shard(args):
     for m in range(0, L):
         for rest in itertools.product(URL, repeat=m):
             val = first + "".join(rest)
-            for key in attrs:
-                elem, ns = ("svg", SVG_NS) if key[0] else ("a", HTML_NS)
+            for key, elem, ns in [(k, "svg" if k[0] else "a", SVG_NS if k[0] else HTML_NS) for k in attrs] + \
+                    [(k, e, HTML_NS) for k, es in sorted(URI_ATTRS_ON.items()) for e in es]:
                 stream = [{"type": "StartTag", "name": elem, "namespace": ns, "data": OrderedDict([(key, val), ((None, "title"), "t")])},
                           {"type": "EndTag", "name": elem, "namespace": ns}]
                 res["evals"] += 1
